@@ -320,6 +320,13 @@ def jobs(prop, tier):
         if prop == 'C03':
             J('h_orig_bam', L=L)
             J('h_resp_bam', L=L)
+    if prop == 'C03':
+        # every residue of the length modulo 60: the last segment exercises every entry of the FD length table
+        for L in range(61, 121):
+            if L not in Ls:
+                J('h_orig_bam', L=L)
+        for L in ((105, 165) if q else range(122, 181)):
+            J('h_orig_cmdt', L=L, windows=255)
     J('h_resp_cmdt', L=181, session=7)
     J('h_orig_cmdt', L=181, holds=[1, 0, 1])
     # retransmission requests: the responder re-requests segments it already received
